@@ -214,26 +214,58 @@ def routing_compare(c, real, mv, flags):
 
 
 # ---- B. permute_results on real Results objects ---------------------------------------------------
+# pulser puts no restriction on tag_suffix: draw from a hostile alphabet
+HOSTILE = ["", "-", "t-end", "t=1.0", "0.5", ".", " ", "a b", "/", "+", "/+", "é", "量子", "_", "__", "a_b", "x", "x_y",
+           "matrix", "occupation", "bitstrings", "correlation_matrix", "energy", "probe", "b", "s" * 200, "(1)", "a\\b",
+           "t:1", "#", "%d", "*", "?", "[0]", "^$", "\\w+", "A", "0", "ü_1", "-_-"]
+CUSTOM_BASES = ["occupation_probe", "bitstrings_raw", "correlation_matrix_x", "occupationx", "probe"]
+
+
+def custom_observable(base, times, suffix):
+    """an observable type unknown to emu-mps whose base tag merely starts with (or resembles) a per-atom tag"""
+    from pulser.backend import Observable
+
+    class Probe(Observable):
+        @property
+        def _base_tag(self):
+            return base
+
+        def apply(self, **kw):
+            return None
+
+    from pulser.backend.observable import AggregationMethod
+
+    return Probe(evaluation_times=times, tag_suffix=suffix, default_aggregation_method=AggregationMethod.SKIP_WARN)
+
+
+def coq_str(x):
+    return '"' + x.replace('"', '""') + '"%string'
+
+
 def gen_results_case(rng):
     n = rng.randint(2, 6)
     perm = list(range(n))
     rng.shuffle(perm)
     entries = []
     used = set()
-    for _ in range(rng.randint(1, 5)):
-        base = rng.choice(["occupation", "correlation_matrix", "bitstrings", "energy", "occupation", "correlation_matrix"])
-        suffix = rng.choice([None, None, "b", "x", "occupation"])
-        if (base, suffix) in used:
+    for _ in range(rng.randint(1, 6)):
+        base = rng.choice(["occupation", "correlation_matrix", "bitstrings", "energy", "occupation", "correlation_matrix",
+                           "occupation", "custom"])
+        if base == "custom":
+            base = rng.choice(CUSTOM_BASES)
+        suffix = rng.choice([None, None, "b", "x"] + [rng.choice(HOSTILE) for _ in range(6)])
+        tag = base if suffix is None else f"{base}_{suffix}"
+        if tag in used:
             continue
-        used.add((base, suffix))
+        used.add(tag)
         times = sorted(rng.sample([0.25, 0.5, 0.75, 1.0], rng.randint(1, 3)))
         data = []
         for _t in times:
-            if base == "occupation":
+            if base == "occupation" or (base in CUSTOM_BASES and not base.startswith(("bitstrings", "correlation"))):
                 data.append(("vec", [rng.randint(0, 9) for _ in range(n)]))
-            elif base == "correlation_matrix":
+            elif base.startswith("correlation_matrix"):
                 data.append(("mat", [[rng.randint(0, 9) for _ in range(n)] for _ in range(n)]))
-            elif base == "bitstrings":
+            elif base.startswith("bitstrings"):
                 keys = sorted({"".join(rng.choice("01") for _ in range(n)) for _ in range(rng.randint(1, 4))})
                 data.append(("bits", keys))
             else:
@@ -252,7 +284,10 @@ def real_permute_results(c):
     res = Results(atom_order=tuple(f"a{i}" for i in range(n)), total_duration=100)
     obs = []
     for e in c["entries"]:
-        o = cls[e["base"]](evaluation_times=e["times"], tag_suffix=e["suffix"])
+        if e["base"] in cls:
+            o = cls[e["base"]](evaluation_times=e["times"], tag_suffix=e["suffix"])
+        else:
+            o = custom_observable(e["base"], e["times"], e["suffix"])
         obs.append(o)
         for t, (kind, v) in zip(e["times"], e["data"]):
             if kind == "vec":
@@ -295,7 +330,7 @@ def payload_lit(kind, v):
 
 def results_expr(c, variant):
     es = "[" + "; ".join(
-        "MkEntry \"%s\"%%string %s [%s]" % (e["base"], "None" if e["suffix"] is None else f'(Some "{e["suffix"]}"%string)',
+        "MkEntry \"%s\"%%string %s [%s]" % (e["base"], "None" if e["suffix"] is None else f'(Some {coq_str(e["suffix"])})',
                                              "; ".join(payload_lit(k, v) for k, v in e["data"]))
         for e in c["entries"]) + "]"
     ao = sl([f"a{i}" for i in range(c["n"])])
@@ -347,13 +382,21 @@ def norm_scenario(sc):
     return sc
 
 
+SCENARIO_SUFFIXES = {"occupation": ["b", "", "t-end", "t=1.0", "0.5", " ", "matrix", "x", "x_y", "é", "/+", "s" * 120],
+                     "correlation_matrix": ["x", "0.5", "", "a-b"],
+                     "bitstrings": ["s", "t=1.0", "", "-"]}
+
+
 def observables():
     from pulser.backend import Occupation, CorrelationMatrix, BitStrings, Energy
 
-    return [Occupation(evaluation_times=[1.0]), Occupation(evaluation_times=[1.0], tag_suffix="b"),
-            CorrelationMatrix(evaluation_times=[1.0]), CorrelationMatrix(evaluation_times=[1.0], tag_suffix="x"),
-            BitStrings(evaluation_times=[1.0], num_shots=64), BitStrings(evaluation_times=[1.0], num_shots=64, tag_suffix="s"),
-            Energy(evaluation_times=[1.0])]
+    obs = [Occupation(evaluation_times=[1.0]), CorrelationMatrix(evaluation_times=[1.0]),
+           BitStrings(evaluation_times=[1.0], num_shots=64), Energy(evaluation_times=[1.0]),
+           Energy(evaluation_times=[1.0], tag_suffix="t-end")]
+    obs += [Occupation(evaluation_times=[1.0], tag_suffix=x) for x in SCENARIO_SUFFIXES["occupation"]]
+    obs += [CorrelationMatrix(evaluation_times=[1.0], tag_suffix=x) for x in SCENARIO_SUFFIXES["correlation_matrix"]]
+    obs += [BitStrings(evaluation_times=[1.0], num_shots=64, tag_suffix=x) for x in SCENARIO_SUFFIXES["bitstrings"]]
+    return obs
 
 
 def summarize(res):
@@ -362,10 +405,17 @@ def summarize(res):
     def vec(x):
         return [round(float(v), 6) for v in torch.as_tensor(x).real.flatten().tolist()]
 
-    return {"atom_order": list(res.atom_order), "occupation": vec(res.occupation[-1]),
-            "occupation_b": vec(res.occupation_b[-1]), "corr": vec(res.correlation_matrix[-1]),
-            "corr_x": vec(res.correlation_matrix_x[-1]), "bits": dict(res.bitstrings[-1]),
-            "bits_s": dict(res.bitstrings_s[-1]), "energy": round(float(torch.as_tensor(res.energy[-1]).real), 6)}
+    tg = res.get_tagged_results()
+    out = {"atom_order": list(res.atom_order), "occupation": vec(tg["occupation"][-1]),
+           "corr": vec(tg["correlation_matrix"][-1]), "bits": dict(tg["bitstrings"][-1]),
+           "energy": round(float(torch.as_tensor(tg["energy"][-1]).real), 6),
+           # every suffixed twin, by full tag
+           "occ_tags": {f"occupation_{x}": vec(tg[f"occupation_{x}"][-1]) for x in SCENARIO_SUFFIXES["occupation"]},
+           "corr_tags": {f"correlation_matrix_{x}": vec(tg[f"correlation_matrix_{x}"][-1])
+                         for x in SCENARIO_SUFFIXES["correlation_matrix"]},
+           "bits_tags": {f"bitstrings_{x}": dict(tg[f"bitstrings_{x}"][-1]) for x in SCENARIO_SUFFIXES["bitstrings"]}}
+    out["occupation_b"] = out["occ_tags"]["occupation_b"]
+    return out
 
 
 def run_scenario(sc, mode):
@@ -440,12 +490,13 @@ def judge_scenario(ctx, sc, mode, s, run_summary=None):
         ctx.violation("with qubit reordering a per-atom drive (amplitude, detuning or phase) acts on the wrong atom: "
                       "occupation / correlations / bitstrings differ from the analytic register-order values",
                       dict(rp, finding_key="F-03-drives-not-permuted"))
-    if not close(s["occupation_b"], s["occupation"]) or not close(s["corr_x"], s["corr"]) or \
-            bits_ok(s["bits_s"], sc) != bits_ok(s["bits"], sc):
-        ctx.violation("an observable with a tag_suffix is reported in a different atom order than the same observable "
-                      "without suffix (suffixed tags are not un-permuted)",
-                      dict(rp, finding_key="F-04-suffixed-tag-not-unpermuted"))
-
+    wrong = [t for t, v in s["occ_tags"].items() if not close(v, s["occupation"])]
+    wrong += [t for t, v in s["corr_tags"].items() if not close(v, s["corr"])]
+    wrong += [t for t, v in s["bits_tags"].items() if bits_ok(v, sc) != bits_ok(s["bits"], sc)]
+    if wrong:
+        ctx.violation("observables with a tag_suffix are reported in a different atom order than the same observable "
+                      f"without suffix (suffixed tags not un-permuted): {wrong[:6]}",
+                      dict(rp, tags_not_unpermuted=wrong, finding_key="F-04-suffixed-tag-not-unpermuted"))
 
 
 # ---- E. reported values with reordering on vs off, for every observable the CODE lets through ----
@@ -609,6 +660,12 @@ def whitelist_table():
         o = cls(evaluation_times=[1.0], **kw)
         cfg = MPSConfig(observables=[o], optimize_qubit_ordering=True, log_level=logging.CRITICAL)
         rows.append((o._base_tag, bool(cfg.optimize_qubit_ordering)))
+    # observable types unknown to emu-mps whose base tag merely starts with / resembles a per-atom tag: the prefix
+    # rule of _tags_with_base would re-order them, so the whitelist must switch reordering off
+    for base in CUSTOM_BASES:
+        o = custom_observable(base, [1.0], None)
+        cfg = MPSConfig(observables=[o], optimize_qubit_ordering=True, log_level=logging.CRITICAL)
+        rows.append((base, bool(cfg.optimize_qubit_ordering)))
     try:
         import torch
         ops = {"r": 1.0}
